@@ -25,7 +25,15 @@ def attribute_pattern_name(model: Model) -> str:
     sites = find_sites(model)
     # functions used as substitution callbacks are not part of the parser proper (they see one escape at a time)
     callbacks = {model.resolve_name(s.module, s.callback.id) for s in sites if s.api == "sub" and isinstance(s.callback, ast.Name)}
-    names = {s.name for s in sites if s.api == "match" and s.name != "<inline>" and not s.nested and s.func not in callbacks and any(s.func == f.qualname for f in fa.parser_functions)}
+    uses = [s.name for s in sites if s.api == "match" and s.name != "<inline>" and not s.nested and s.func not in callbacks and any(s.func == f.qualname for f in fa.parser_functions)]
+    names = set(uses)
+    if len(names) > 1:
+        # several patterns are matched by the parser (a hex check moved out of its callback, a pattern for one token): names are
+        # validated at several places (attribute, extensible-match attribute, rule), the others at one
+        from collections import Counter
+        cnt = Counter(uses).most_common()
+        if cnt[0][1] >= 2 and cnt[0][1] > cnt[1][1]:
+            return cnt[0][0]
     if len(names) != 1:
         raise AnalysisError(f"attribute-description pattern not identified (candidates: {sorted(names)})")
     return names.pop()
